@@ -309,6 +309,160 @@ func (s *Sem) holds(k Conj, p Prim, depth int, resolve func(ssa.Value) ssa.Value
 	return false
 }
 
+// ResultCase is one way a module function can have produced the value a caller holds: the returned value in
+// the callee's frame together with the facts of one disjunct at that return.
+type ResultCase struct {
+	Fn  *ssa.Function
+	Val ssa.Value
+	K   Conj
+}
+
+// ResultCases enumerates, for v = the i-th result of a call to a module function, the (return, disjunct) pairs
+// of the callee that are compatible with what conjunction k of the caller says about the call's results
+// (for instance err == nil). ok is false when v is not such a call result.
+func (s *Sem) ResultCases(k Conj, v ssa.Value) (cases []ResultCase, ok bool) {
+	call, idx := callResult(Unwrap(v))
+	if call == nil {
+		return nil, false
+	}
+	g := StaticCallee(call.Common())
+	if g == nil {
+		return nil, false
+	}
+	g = unwrapSynthetic(g)
+	if g.Blocks == nil || !s.C.inModule(g) {
+		return nil, false
+	}
+	var fs []struct {
+		idx int
+		f   Fact
+	}
+	for _, f := range k.List() {
+		if c2, i2 := callResult(f.X); c2 == call {
+			fs = append(fs, struct {
+				idx int
+				f   Fact
+			}{i2, f})
+		}
+	}
+	for _, rc := range s.RetCases(g) {
+		if idx >= len(rc.Results) {
+			continue
+		}
+		comp := true
+		var extra []Fact
+		for _, cf := range fs {
+			cok, nf := s.compatible(rc, cf.idx, cf.f)
+			if !cok {
+				comp = false
+				break
+			}
+			if nf != nil {
+				extra = append(extra, *nf)
+			}
+		}
+		if !comp {
+			continue
+		}
+		for _, d := range rc.State {
+			feasible := true
+			for _, e := range extra {
+				if contradicts(d, e) {
+					feasible = false
+					break
+				}
+			}
+			if !feasible {
+				continue
+			}
+			dd := d
+			for _, e := range extra {
+				dd = dd.With(e)
+			}
+			cases = append(cases, ResultCase{Fn: g, Val: rc.Results[idx], K: dd})
+		}
+	}
+	return cases, true
+}
+
+// Augment returns k extended with the facts that every compatible return of a called helper guarantees about
+// the helper's parameters, rewritten to the arguments of the call: after `if err := check(d); err != nil
+// { return }` the conjunction on the continuing path gains what check's nil-returns all know about d.
+// Only facts whose operands are parameters or constants are carried over.
+func (s *Sem) Augment(k Conj) Conj {
+	calls := map[*ssa.Call]bool{}
+	var order []*ssa.Call
+	for _, f := range k.List() {
+		if c, _ := callResult(f.X); c != nil && !calls[c] {
+			calls[c] = true
+			order = append(order, c)
+		}
+	}
+	out := k
+	for _, c := range order {
+		g := StaticCallee(c.Common())
+		if g == nil {
+			continue
+		}
+		g = unwrapSynthetic(g)
+		if g.Blocks == nil || !s.C.inModule(g) {
+			continue
+		}
+		cases, ok := s.ResultCases(k, c)
+		if !ok || len(cases) == 0 {
+			continue
+		}
+		args := CallArgs(c.Common())
+		translate := func(v ssa.Value) (ssa.Value, bool) {
+			v = Unwrap(v)
+			switch x := v.(type) {
+			case *ssa.Const:
+				return s.C.F.Canon(x), true
+			case *ssa.Parameter:
+				for i, q := range g.Params {
+					if q == x && i < len(args) {
+						return s.C.F.Canon(Unwrap(args[i])), true
+					}
+				}
+			}
+			return nil, false
+		}
+		var common map[Fact]bool
+		for _, rc := range cases {
+			cur := map[Fact]bool{}
+			for _, f := range rc.K.List() {
+				if f.Op == token.ILLEGAL || f.Y == nil {
+					continue
+				}
+				x, okx := translate(f.X)
+				y, oky := translate(f.Y)
+				if !okx || !oky {
+					continue
+				}
+				if _, isC := x.(*ssa.Const); isC {
+					if _, isC2 := y.(*ssa.Const); isC2 {
+						continue
+					}
+				}
+				cur[Fact{Op: f.Op, X: x, Y: y}] = true
+			}
+			if common == nil {
+				common = cur
+			} else {
+				for f := range common {
+					if !cur[f] {
+						delete(common, f)
+					}
+				}
+			}
+		}
+		for f := range common {
+			out = out.With(f)
+		}
+	}
+	return out
+}
+
 func (c *Ctx) inModule(f *ssa.Function) bool {
 	return f.Pkg != nil && strings.HasPrefix(f.Pkg.Pkg.Path(), ModPath)
 }
